@@ -24,7 +24,7 @@ def plus(a, v):
 
 def keep(v):
   """filter predicate of a whole record (a record is kept or dropped)."""
-  return v[0] % 3 != 0
+  return v[0] % 4 != 1
 
 
 def ident2(a, v):
@@ -73,6 +73,45 @@ class BagInPlace(Bag):
     for s in states:
       out.extend(s)
     return out
+
+
+def _point(kind, obj):
+  """A visible step of fixture code (scheduling point under E1)."""
+  from vmc import sched
+  s = sched._current
+  if s is not None and not s.aborting:
+    s.point(kind, obj)
+
+
+class _RacyState:
+
+  def __init__(self):
+    self.rows = ()
+
+
+class BagRacy(Bag):
+  """An aggregate that is not thread-safe (as none has to be): reading the
+  state and writing it back are two visible steps.  Callers must serialise
+  update_state - two unsynchronised updates lose one."""
+
+  def create_state(self):
+    return _RacyState()
+
+  def update_state(self, state, *cols):
+    _point('rd', 'BagRacy.rows')
+    old = state.rows
+    _point('wr', 'BagRacy.rows')
+    state.rows = old + _rows(cols)
+    return state
+
+  def merge_states(self, states):
+    out = _RacyState()
+    for s in states:
+      out.rows = out.rows + s.rows
+    return out
+
+  def get_result(self, state):
+    return sorted(state.rows)
 
 
 class BagMetric:
